@@ -152,6 +152,9 @@ pub enum Preheld {
     SameBlockPartial,
     /// dissemination shreds of another block the (equivocating) leader signed for this slot
     ConflictingBlock,
+    /// the leader's other block of the slot arrived completely through dissemination: the slot
+    /// "has a block" while the block under repair is a different one
+    ConflictingBlockComplete,
 }
 
 #[derive(Clone, Copy, Debug, Default)]
@@ -192,6 +195,13 @@ fn run_history_env(fx: &Fixture, deviations: &BTreeMap<usize, Hostile>, env: Env
                 Preheld::ConflictingBlock => {
                     for set in &fx.alt_data {
                         for s in set.iter().skip(3).take(5) {
+                            let _ = vstore.add_shred_from_dissemination(s.clone()).await;
+                        }
+                    }
+                }
+                Preheld::ConflictingBlockComplete => {
+                    for set in &fx.alt_data {
+                        for s in set.iter() {
                             let _ = vstore.add_shred_from_dissemination(s.clone()).await;
                         }
                     }
@@ -748,14 +758,14 @@ pub fn run(tier: Tier) -> i32 {
         }
         // environment variants: dissemination shreds already held, repair requested again
         let mut env_jobs: Vec<(BTreeMap<usize, Hostile>, Env)> = Vec::new();
-        for pre in [Preheld::SameBlockPartial, Preheld::ConflictingBlock] {
+        for pre in [Preheld::SameBlockPartial, Preheld::ConflictingBlock, Preheld::ConflictingBlockComplete] {
             let env = Env { preheld: pre, retrigger_after: None, sibling: 0 };
             env_jobs.push((BTreeMap::new(), env));
             let env_positions: Vec<usize> = match tier {
                 Tier::Quick => vec![1, 2, 2 + nslices, 3 + nslices, 1 + nslices + 20],
                 Tier::Thorough => positions.iter().copied().filter(|p| *p <= 6 + nslices || p % 8 == 0 || *p == nreq).collect(),
             };
-            let env_kinds: Vec<Hostile> = tier.pick(vec![Hostile::ShredCorrupted, Hostile::OtherSignedSlice, Hostile::SameRootOtherLastFlag, Hostile::InvalidProof, Hostile::Nack], ALL_HOSTILE.to_vec());
+            let env_kinds: Vec<Hostile> = tier.pick(vec![Hostile::ShredCorrupted, Hostile::OtherSignedSlice, Hostile::SameRootOtherLastFlag, Hostile::InvalidProof, Hostile::Nack, Hostile::Silence], ALL_HOSTILE.to_vec());
             for p in env_positions {
                 for h in &env_kinds {
                     env_jobs.push(([(p, *h)].into_iter().collect(), env));
